@@ -884,6 +884,43 @@ func runCallMarks(rr *RuleRun) {
 		rr.Violation("cty/function.Function.Call/resultMarks", call.Pos(), "Call keeps no collection of the marks it strips")
 		return
 	}
+	// every mark set that reaches resultMarks comes out of an UnmarkDeep call: Marks() / Unmark() see only
+	// the top-level marks of an argument
+	deepMarks := map[types.Object]bool{}
+	inspectNoLit(call.Body, func(n ast.Node) bool {
+		if as, ok := n.(*ast.AssignStmt); ok && len(as.Rhs) == 1 && len(as.Lhs) == 2 {
+			if cl, ok := as.Rhs[0].(*ast.CallExpr); ok && isCall(info, cl, "cty.Value.UnmarkDeep") {
+				if o := objOf(info, as.Lhs[1]); o != nil {
+					deepMarks[o] = true
+				}
+			}
+		}
+		return true
+	})
+	inspectNoLit(call.Body, func(n ast.Node) bool {
+		as, ok := n.(*ast.AssignStmt)
+		if !ok {
+			return true
+		}
+		for i, lh := range as.Lhs {
+			if objOf(info, lh) != resultMarks || i >= len(as.Rhs) {
+				continue
+			}
+			ap, ok := as.Rhs[i].(*ast.CallExpr)
+			if !ok || !isBuiltin(info, ap, "append") || len(ap.Args) < 2 || objOf(info, ap.Args[0]) != resultMarks {
+				continue
+			}
+			for _, a := range ap.Args[1:] {
+				k := "cty/function.Function.Call/resultMarks←" + trunc(exprStr(a), 40)
+				if o := objOf(info, a); o != nil && deepMarks[o] {
+					rr.OK(k, a.Pos(), "the collected marks are the result of UnmarkDeep")
+				} else {
+					rr.Violation(k, a.Pos(), "the marks collected for the result ("+exprStr(a)+") do not come out of UnmarkDeep: Marks() and Unmark() see only the top-level marks, so marks on nested members of the argument are missing from the result")
+				}
+			}
+		}
+		return true
+	})
 	for _, fd := range []*ast.FuncDecl{call, rtfv} {
 		pos, vari := findArgLoops(info, fd)
 		for _, l := range []*argLoop{pos, vari} {
